@@ -79,11 +79,16 @@ func (e *Engine) VerifyUnit(c *Contract) (r *FnRun) {
 			}
 		}
 	}
-	for _, fv := range fn.FreeVars {
+	for i, fv := range fn.FreeVars {
 		el := fv.Type().(*types.Pointer).Elem()
 		l := fr.locOf(fr.env[fv], el)
-		fr.names[fv.Name()] = TV(fr.load(l))
+		v := fr.load(l)
+		fr.names[fv.Name()] = TV(v)
 		fr.nameTys[fv.Name()] = el
+		if immutableCapture(fn, i) {
+			// never reassigned after the closure was created: no call can change it
+			r.constCells[fr.termOf(fr.env[fv]).S] = v
+		}
 	}
 	fr.entry = st.Clone()
 	r.assertAxioms(fr)
@@ -147,6 +152,9 @@ func (e *Engine) VerifyUnit(c *Contract) (r *FnRun) {
 		}
 	}
 	r.checkMonitorsAtExit(fr, retGuard)
+	if retGuard.S != "false" {
+		r.checkFrame(fr, out, retGuard)
+	}
 	if r.inInit {
 		r.checkGlobalImmutability(fr)
 	}
@@ -406,6 +414,256 @@ func (r *FnRun) Summary() (trusted, notes, inlined []string) {
 func containsAny(s string, subs ...string) bool {
 	for _, x := range subs {
 		if strings.Contains(s, x) {
+			return true
+		}
+	}
+	return false
+}
+
+// checkFrame: the heap components that differ from the entry state at exit must be covered by the contract's
+// modifies clause (objects allocated by the function itself are exempt).
+func (r *FnRun) checkFrame(fr *Frame, out *State, retGuard Term) {
+	c := r.Contract
+	if c == nil || c.ModAll || r.inInit {
+		return
+	}
+	entry := fr.entry
+	if out.epoch != entry.epoch {
+		r.addObl("frame", "calls-uncontracted-code", False, "the function reaches code without a contract (whole heap havocked) but its contract has no 'modifies *'", nil, fr.Fn.Pos())
+		return
+	}
+	// allowed (component -> indices; nil slice = whole component)
+	type allow struct {
+		whole bool
+		idx   []Term
+	}
+	allowed := map[string]*allow{}
+	add := func(comp string, idx Term, whole bool) {
+		a := allowed[comp]
+		if a == nil {
+			a = &allow{}
+			allowed[comp] = a
+		}
+		if whole {
+			a.whole = true
+		} else {
+			a.idx = append(a.idx, idx)
+		}
+	}
+	ctx := fr.ctxHere()
+	ctx.st = entry
+	saved := fr.st
+	fr.st = entry
+	for _, m := range c.Modifies {
+		r.modTargets(fr, ctx, m, add)
+	}
+	fr.st = saved
+	if c.HavocExt {
+		for _, n := range r.Heap.Names() {
+			if strings.HasPrefix(n, "F.") && !fr.moduleComp(n) {
+				add(n, Term{}, true)
+			}
+		}
+	}
+	top0 := entry.top
+	for _, name := range sortedKeys(out.heap) {
+		ft := out.heap[name]
+		sort := r.Heap.sorts[name]
+		et := r.Heap.Get(entry, name, sort)
+		if ft.S == et.S {
+			continue
+		}
+		a := allowed[name]
+		if a != nil && a.whole {
+			continue
+		}
+		var goal Term
+		if !strings.HasPrefix(string(sort), "(Array Int ") {
+			// package-level variable
+			goal = Implies(retGuard, Eq(ft, et))
+		} else {
+			i := fmt.Sprintf("fi?%d", r.Sc.n)
+			r.Sc.n++
+			var ds []string
+			ds = append(ds, fmt.Sprintf("(> %s %s)", i, top0.S), fmt.Sprintf("(<= %s 0)", i))
+			if a != nil {
+				for _, ix := range a.idx {
+					ds = append(ds, fmt.Sprintf("(= %s %s)", i, ix.S))
+				}
+			}
+			ds = append(ds, fmt.Sprintf("(= (select %s %s) (select %s %s))", ft.S, i, et.S, i))
+			goal = Implies(retGuard, T(fmt.Sprintf("(forall ((%s Int)) (or %s))", i, strings.Join(ds, " ")), SBool))
+		}
+		r.addObl("frame", name, goal, "only what 'modifies' lists may differ from the entry state: "+name, nil, fr.Fn.Pos())
+	}
+}
+
+// modTargets maps a modifies target to (component, index) pairs.
+func (r *FnRun) modTargets(fr *Frame, ctx *EvalCtx, e Expr, add func(comp string, idx Term, whole bool)) {
+	switch e := e.(type) {
+	case ESel:
+		x := ctx.Eval(e.X)
+		p, ok := types.Unalias(x.Ty).Underlying().(*types.Pointer)
+		if !ok {
+			ctx.fail("modifies target %s: not a pointer", ExprString(e))
+		}
+		_, path, _ := types.LookupFieldOrMethod(x.Ty, true, nil, e.Sel)
+		if path == nil {
+			if n := namedOf(x.Ty); n != nil {
+				_, path, _ = types.LookupFieldOrMethod(x.Ty, true, n.Obj().Pkg(), e.Sel)
+			}
+		}
+		if path == nil {
+			ctx.fail("modifies target %s: no such field", ExprString(e))
+		}
+		st := types.Unalias(p.Elem()).Underlying().(*types.Struct)
+		base := fr.locOf(Val{T: x.T, Loc: x.Loc}, p.Elem())
+		bt := p.Elem()
+		first := path[0]
+		if len(base.Path) > 0 {
+			bt = base.Type
+			st = types.Unalias(bt).Underlying().(*types.Struct)
+			first = base.Path[0]
+		}
+		add(fieldComp(bt, st.Field(first).Name()), base.Ref, false)
+	case ECall:
+		switch e.Fun {
+		case "elems":
+			x := ctx.Eval(e.Args[0])
+			st := types.Unalias(x.Ty).Underlying().(*types.Slice)
+			add(elemsComp(r.TM.SortOf(st.Elem())), app(SInt, "s-arr", x.T), false)
+		case "mapOf":
+			x := ctx.Eval(e.Args[0])
+			mt := types.Unalias(x.Ty).Underlying().(*types.Map)
+			ks, vs := fr.mapSorts(mt)
+			add(mapDomComp(ks, vs), x.T, false)
+			add(mapValComp(ks, vs), x.T, false)
+			add(mapLenComp, x.T, false)
+		case "fields":
+			for _, n := range ctx.heapCompNames("field " + typeExprString(e.Args[0])) {
+				add(n, Term{}, true)
+			}
+		case "chanState":
+			add(chanClosedComp, Term{}, true)
+		case "all":
+			x := ctx.Eval(e.Args[0])
+			p := types.Unalias(x.Ty).Underlying().(*types.Pointer)
+			st := types.Unalias(p.Elem()).Underlying().(*types.Struct)
+			for i := 0; i < st.NumFields(); i++ {
+				add(fieldComp(p.Elem(), st.Field(i).Name()), x.T, false)
+			}
+		case "reach":
+			name := identName(e.Args[0])
+			v, ok := ctx.vars[name]
+			if !ok {
+				ctx.fail("reach(%s): unknown parameter", name)
+			}
+			if _, isIface := types.Unalias(v.Ty).Underlying().(*types.Interface); isIface {
+				for _, n := range r.Heap.Names() {
+					add(n, Term{}, true)
+				}
+				return
+			}
+			for _, comp := range fr.reachComps(v.Ty) {
+				add(comp, Term{}, true)
+			}
+		default:
+			ctx.fail("unsupported modifies target %s", ExprString(e))
+		}
+	case EIdent:
+		if v, ok := ctx.vars["&"+e.Name]; ok {
+			el := v.Ty.(*types.Pointer).Elem()
+			add(boxComp(r.TM.SortOf(el)), v.T, false)
+			return
+		}
+		ctx.fail("unsupported modifies target %s", ExprString(e))
+	default:
+		ctx.fail("unsupported modifies target %s", ExprString(e))
+	}
+}
+
+// immutableCapture reports whether the i-th captured variable of closure fn is assigned at most once (its
+// initialisation in the enclosing function) and never written by any closure sharing it.
+func immutableCapture(fn *ssa.Function, i int) bool {
+	parent := fn.Parent()
+	if parent == nil {
+		return false
+	}
+	var bound ssa.Value
+	for _, b := range parent.Blocks {
+		for _, in := range b.Instrs {
+			if mc, ok := in.(*ssa.MakeClosure); ok && mc.Fn == fn && i < len(mc.Bindings) {
+				bound = mc.Bindings[i]
+			}
+		}
+	}
+	switch bv := bound.(type) {
+	case *ssa.Alloc:
+		stores := 0
+		for _, ref := range *bv.Referrers() {
+			switch r := ref.(type) {
+			case *ssa.Store:
+				if r.Addr != bv {
+					return false
+				}
+				stores++
+			case *ssa.UnOp, *ssa.DebugRef:
+			case *ssa.MakeClosure:
+				cf := r.Fn.(*ssa.Function)
+				for j, b := range r.Bindings {
+					if b == bv && freeVarWritten(cf, j) {
+						return false
+					}
+				}
+			default:
+				return false
+			}
+		}
+		return stores <= 1
+	case *ssa.FreeVar:
+		for j, fv := range parent.FreeVars {
+			if fv == bv {
+				if freeVarWrittenShallow(parent, j) {
+					return false
+				}
+				return immutableCapture(parent, j)
+			}
+		}
+	}
+	return false
+}
+
+func freeVarWrittenShallow(fn *ssa.Function, j int) bool {
+	fv := fn.FreeVars[j]
+	for _, ref := range *fv.Referrers() {
+		switch r := ref.(type) {
+		case *ssa.Store:
+			return true
+		case *ssa.UnOp, *ssa.DebugRef, *ssa.MakeClosure:
+			_ = r
+		default:
+			return true
+		}
+	}
+	return false
+}
+
+// freeVarWritten: the closure (or a closure nested in it) may assign the captured variable.
+func freeVarWritten(fn *ssa.Function, j int) bool {
+	fv := fn.FreeVars[j]
+	for _, ref := range *fv.Referrers() {
+		switch r := ref.(type) {
+		case *ssa.Store:
+			return true
+		case *ssa.UnOp, *ssa.DebugRef:
+		case *ssa.MakeClosure:
+			cf := r.Fn.(*ssa.Function)
+			for k, b := range r.Bindings {
+				if b == ssa.Value(fv) && freeVarWritten(cf, k) {
+					return true
+				}
+			}
+		default:
 			return true
 		}
 	}
